@@ -163,6 +163,18 @@ def correspondence(ctx):
         "twin-directory patterns, REQUIRE of the name and of the twin, MATCH with the twin / the same name / a backslash "
         "destination / a prefix, CREATE / DELETE / MODIFY between a name and its twin, both twins in one map; queue probes use "
         "the escaped literal pattern of a name; "
+        "unclean-material-names-created-modified-deleted-<form> classes: a file whose material (or product, or both) entry is "
+        "recorded as ./x, d//x, d/./x, y/../x, x/ and whose other entry is clean, same and different digests, with "
+        "CREATE * ; DISALLOW * (a pre-existing file must not be consumed), DELETE * ; DISALLOW * (a file that is still there must "
+        "not be consumed), MODIFY * ; DISALLOW *, really created / really deleted twins and the all-clean twin; verdicts against "
+        "the oracle run on the paths the names denote (its own cleaner; no claim when two names of a map denote one path) and "
+        "against the model. NO oracle claim for MODIFY on an entry recorded unclean unless exactly one side is unclean and the "
+        "digests differ: VerifyArtifacts looks the cleaned name up in the maps as recorded, so an unchanged file with one unclean "
+        "entry counts as modified and a changed file with two unclean entries does not (deviation of the code, reproduced by the "
+        "model, reported to the coordinator; those cases are model vs implementation only); "
+        "require-on-empty-queue-<form> classes: REQUIRE f with no artifacts at all (materials, products, inspection), as the only "
+        "rule with another artifact queued, followed by other rules, after ALLOW * / MATCH * / CREATE * / DELETE * / MODIFY f "
+        "consumed everything (all rejected), and the twins where f is queued (accepted); "
         "rooted classes: absolute artifact paths with MATCH prefixes "
         "that clean to '/' ('/', '//', '/./', '/x/..'), absolute directories, '.', './', a prefix equal to a whole path, as source "
         "prefix, destination prefix and both. Rooted paths are excluded from the well-formed inputs of C03_model_eq_spec "
